@@ -56,6 +56,12 @@ def _run_group(cmd, cwd, timeout, env=None, log=None, mem_gb=None):
         out, _ = p.communicate()
         to = True
     stop.set()
+    # Kani's own --harness-timeout kills cbmc but not the SMT solver cbmc spawned (z3 for
+    # #[kani::solver(z3)] harnesses): reap whatever is left of the session.
+    try:
+        os.killpg(p.pid, signal.SIGKILL)
+    except (ProcessLookupError, PermissionError):
+        pass
     if log:
         with open(log, "a") as f:
             f.write("$ " + " ".join(cmd) + "\n" + (out or "") + "\n")
@@ -207,6 +213,35 @@ def native_verdict(out, test_name, timed_out=False):
     return "unknown"
 
 
+_PB_TEST_RE = re.compile(r"[ \t]*#\[test\]\s*fn kani_concrete_playback_\w+\(\) \{.*?\n\s*\}\n?", re.S)
+
+
+def _relocate_playback_tests(path, harness_name):
+    """Kani writes the generated #[test] next to the harness fn; for a harness defined inside a
+    `macro_rules!` body that text is expanded once per macro invocation (duplicate definitions).
+    Move every generated test to the end of the harness module instead (deduplicated)."""
+    import rsrc
+    s = open(path).read()
+    tests = []
+    for m in _PB_TEST_RE.finditer(s):
+        t = m.group(0).strip()
+        if t not in tests:
+            tests.append(t)
+    s2 = _PB_TEST_RE.sub("", s)
+    parts = harness_name.split("::")
+    mod = parts[-2] if len(parts) >= 2 else None
+    msk = rsrc.mask(s2)
+    end = None
+    if mod:
+        mm = re.search(r"\bmod\s+%s\s*\{" % re.escape(mod), msk)
+        if mm:
+            end = rsrc.match_brace(msk, mm.end() - 1) - 1
+    if end is None:
+        end = msk.rstrip().rfind("}")
+    s2 = s2[:end] + "\n" + "\n".join("    " + t for t in tests) + "\n" + s2[end:]
+    open(path, "w").write(s2)
+
+
 def playback(unit, scratch, harness, log=None, timeout=600):
     """Re-run one failing harness with concrete playback. Returns dict(test_src, test_name, native_output, reproduced)."""
     cmd = ["cargo", "kani", "-p", unit["crate"]] + KANI_FLAGS + list(unit.get("kani_flags", [])) + \
@@ -232,6 +267,7 @@ def playback(unit, scratch, harness, log=None, timeout=600):
     if not test_name:
         res["native_output"] = "no concrete playback test generated\n" + out[-1500:]
         return res
+    _relocate_playback_tests(p, harness["name"])
     res["test_src"] = test_src
     res["test_name"] = test_name
     cmd2 = ["cargo", "kani", "playback", "-Z", "concrete-playback", "-p", unit["crate"]]
